@@ -1130,17 +1130,16 @@ impl TypeSpace {
 
         // See if the value bounds fit within a known type.
         let maybe_type = match (min, max) {
-            (None, Some(max)) => formats.iter().rev().find_map(|(_, ty, _nz_ty, _, imax)| {
-                if (imax - max).abs() <= f64::EPSILON {
-                    Some(ty.to_string())
-                } else {
-                    None
-                }
-            }),
+            // With only an upper bound, every negative integer is valid so no
+            // type narrower than the default will do.
+            (None, Some(_)) => None,
+            // With only a lower bound, arbitrarily large values are valid so
+            // only the widest unsigned types apply (and only when negative
+            // values are excluded).
             (Some(min), None) => formats.iter().rev().find_map(|(_, ty, nz_ty, imin, _)| {
                 if min == 1. {
                     Some(nz_ty.to_string())
-                } else if (imin - min).abs() <= f64::EPSILON {
+                } else if *imin == 0. && min == 0. {
                     Some(ty.to_string())
                 } else {
                     None
